@@ -146,6 +146,7 @@ type vFSOp struct {
 	name string
 	to   string
 	data []byte
+	locks int // how many locks the caller held when it made this call
 }
 
 type vFSState struct {
@@ -222,6 +223,7 @@ func vfsDo(op vFSOp) error {
 		vfsLog = append(vfsLog, vFSOp{kind: "failed:" + op.kind, name: op.name, to: op.to})
 		return os.ErrNotExist
 	}
+	op.locks = vLocksHeld
 	vfsLog = append(vfsLog, op)
 	vfsApplyAny(vfs, op)
 	return nil
